@@ -466,12 +466,29 @@ pub fn f_agg(thorough: bool) -> Vec<Unit> {
     units
 }
 
+// ------------------------------------------------------------------------------------------ F-timeout
+/// programs compiled with #![generate_run_timeout]: a cut through F-scc, F-lat and F-agg
+pub fn f_timeout(thorough: bool) -> Vec<Unit> {
+    let mut out = vec![];
+    let step = if thorough { 3 } else { 9 };
+    for (i, u) in f_scc(false).into_iter().enumerate() { if i % step == 0 || u.tag == "scc-multihead" { out.push(u); } }
+    for u in f_lat(false) { if thorough || u.tag.ends_with("dualu32") || u.tag.ends_with("setu8") || u.tag.ends_with("constprop") { out.push(u); } }
+    for (i, u) in f_agg(false).into_iter().enumerate() { if i % (if thorough { 4 } else { 12 }) == 0 { out.push(u); } }
+    for u in out.iter_mut() {
+        u.variants.truncate(1);
+        u.variants[0].attrs = vec!["#![generate_run_timeout]".into()];
+        u.variants[0].label = "ascent+generate_run_timeout".into();
+    }
+    out
+}
+
 pub fn units(family: &str, thorough: bool) -> Vec<Unit> {
     match family {
         "shape" => f_shape(thorough),
         "scc" => f_scc(thorough),
         "lat" => f_lat(thorough),
         "agg" => f_agg(thorough),
+        "timeout" => f_timeout(thorough),
         _ => panic!("unknown family {}", family),
     }
 }
